@@ -34,6 +34,10 @@ pub struct C11Case {
 	pub whitelist: Vec<(u8, u8)>,
 	/// non-negated ignore pattern appended for the monotonicity law
 	pub extra_ignore: String,
+	/// how the origin is named to the filterer and in the event paths: 0 canonical, 1 through a symbolic link to
+	/// it, 2 with a `name/..` detour (only without an ignore file, whose own scoping is C03's subject)
+	#[serde(default)]
+	pub origin_spelling: u8,
 }
 
 fn std_extension(name: &str) -> Option<&str> {
@@ -174,6 +178,29 @@ pub fn run(c: &C11Case) -> Outcome {
 		tmp.path().canonicalize().unwrap()
 	} else {
 		shared_origin()
+	};
+	// the origin as the filterer and the event paths name it
+	let origin = match (c.ignore_file.is_some(), c.origin_spelling) {
+		(false, 1) => {
+			let link = origin.parent().unwrap().join(format!("{}-link", origin.file_name().unwrap().to_string_lossy()));
+			match std::os::unix::fs::symlink(&origin, &link) {
+				Ok(()) => {}
+				Err(e) if e.kind() == std::io::ErrorKind::AlreadyExists => {}
+				Err(e) => {
+					o.fail("env:symlink", e.to_string());
+					return o;
+				}
+			}
+			o.label("origin-through-a-symlink");
+			link
+		}
+		(false, 2) => {
+			let detour = origin.parent().unwrap().join("detour");
+			let _ = std::fs::create_dir_all(&detour);
+			o.label("origin-with-a-dotdot-detour");
+			detour.join("..").join(origin.file_name().unwrap())
+		}
+		_ => origin,
 	};
 	let mut ignore_files = Vec::new();
 	if let Some(lines) = &c.ignore_file {
@@ -332,9 +359,9 @@ fn strategy() -> BoxedStrategy<C11Case> {
 				prop_oneof![1 => Just(vec![]), 8 => proptest::collection::vec(probe.clone(), 1..2), 3 => proptest::collection::vec(probe, 2..4)],
 				1..6,
 			);
-			(filters, ignores, exts, ignore_file, events, proptest::collection::vec((0u8..6, 0u8..3), 0..2), proptest::bool::weighted(0.15), al.positive_pattern())
+			(filters, ignores, exts, ignore_file, events, proptest::collection::vec((0u8..6, 0u8..3), 0..2), (proptest::bool::weighted(0.15), prop_oneof![6 => Just(0u8), 1 => Just(1u8), 1 => Just(2u8)]), al.positive_pattern())
 		})
-		.prop_map(|(filters, ignores, exts, ignore_file, events, wl, use_wl, extra_ignore)| C11Case {
+		.prop_map(|(filters, ignores, exts, ignore_file, events, wl, (use_wl, origin_spelling), extra_ignore)| C11Case {
 			filters,
 			ignores,
 			exts,
@@ -342,6 +369,7 @@ fn strategy() -> BoxedStrategy<C11Case> {
 			events,
 			whitelist: if use_wl { wl } else { vec![] },
 			extra_ignore,
+			origin_spelling,
 		})
 		.boxed()
 }
@@ -351,7 +379,7 @@ pub fn check(e: &Engine) {
 	e.assume("ignore-file leg inside C11 uses a single origin-level file without negations (scoping and negation are C03's subject)");
 	e.explore(
 		"verdicts",
-		LegOpts::det(e.tier.pick(25_000, 500_000), "0-3 filter patterns, 0-3 ignore patterns, 0-2 extensions, optional whitelist (entries handed over in a spelling of their own: plain, doubled separator, '.' component, trailing separator) and origin-level ignore file; 1-5 events of 0-3 paths (file/dir/unknown, inside/outside origin); verdict vs independent matcher + laws (empty config, precedence, monotonicity); non-trivial = a pattern matches a path and >=2 mechanisms configured"),
+		LegOpts::det(e.tier.pick(25_000, 500_000), "0-3 filter patterns, 0-3 ignore patterns, 0-2 extensions, the origin named canonically, through a symbolic link or with a 'name/..' detour (event paths use the same spelling), optional whitelist (entries handed over in a spelling of their own: plain, doubled separator, '.' component, trailing separator) and origin-level ignore file; 1-5 events of 0-3 paths (file/dir/unknown, inside/outside origin); verdict vs independent matcher + laws (empty config, precedence, monotonicity); non-trivial = a pattern matches a path and >=2 mechanisms configured"),
 		&strategy,
 		&run,
 	);
